@@ -204,7 +204,7 @@ static int keyswitch(int t, int basebit, int n) {
     for (int i = 0; i < n; i++) for (int j = 0; j < t; j++) for (int h = 0; h < base; h++) { ks->ks[i][j][h].a[0] = 0; ks->ks[i][j][h].b = (int32_t)(1000003u * (uint32_t)((i * t + j) * base + h) + 12345u); ks->ks[i][j][h].current_variance = 0; }
     LweParams *ip = new_LweParams(n, 0., 0.); LweSample *in = new_LweSample(ip), *out = new_LweSample(op);
     int k = 32 - t * basebit;
-    for (int rep = 0; rep < 4000; rep++) {
+    for (int rep = 0; rep < (n > 64 ? 60 : 4000); rep++) {
         uint32_t exp = 0;
         for (int i = 0; i < n; i++) {
             uint32_t a = rep < 40 ? (0x7FFFFFFFu - (uint32_t)rep) : rep < 80 ? (0xFFFFFFFFu - (uint32_t)(rep - 40)) : U(val());
@@ -218,6 +218,38 @@ static int keyswitch(int t, int basebit, int n) {
     }
     return 0;
 }
+// creation of a key-switching key (C07): real lweCreateKeySwitchKey, shapes incl. large ones and row counts that are multiples of 2^15.
+// Oracle: digit-0 rows are the zero sample; row (i,j,h>=1) has phase h*s_i*2^(32-(j+1)basebit) + e with e centred (the function recentres),
+// of standard deviation alpha (8 sigma acceptance), masked; the noise values are not shared between rows (few coincidences at alpha = 0.01).
+#include <cmath>
+#include <algorithm>
+static int kscreate() {
+    static const int shapes[][3] = {{3, 2, 1}, {5, 3, 2}, {300, 8, 2}, {2048, 16, 1}, {1024, 32, 1}, {1500, 7, 2}};
+    const double alpha = 0.01; const int nout = 4;
+    for (auto &sh : shapes) { int n = sh[0], t = sh[1], bb = sh[2], base = 1 << bb;
+        LweParams *ip = new_LweParams(n, 0., 0.), *op = new_LweParams(nout, alpha, 0.2); LweKey *ik = new_LweKey(ip), *ok = new_LweKey(op);
+        for (int i = 0; i < n; i++) ik->key[i] = (i * 7 + 1) % 2; for (int i = 0; i < nout; i++) ok->key[i] = i % 2;
+        LweKeySwitchKey *ks = new_LweKeySwitchKey(n, t, bb, op);
+        lweCreateKeySwitchKey(ks, ik, ok);
+        vector<int32_t> errs; double sum = 0, sq = 0; long zero_mask = 0;
+        for (int i = 0; i < n; i++) for (int j = 0; j < t; j++) {
+            const LweSample &z = ks->ks[i][j][0]; if (z.b != 0) FAIL("key-switching key n=%d t=%d basebit=%d: digit-0 row (%d,%d) is not the zero sample", n, t, bb, i, j);
+            for (int h = 1; h < base; h++) { const LweSample &r = ks->ks[i][j][h];
+                uint32_t mess = (U(ik->key[i]) * (uint32_t)h) * (1u << (32 - (j + 1) * bb));
+                int32_t e = (int32_t)(U(lwePhase(&r, ok)) - mess); errs.push_back(e); double d = e / 4294967296.0; sum += d; sq += d * d;
+                bool allz = true; for (int p = 0; p < nout; p++) if (r.a[p] != 0) allz = false; if (allz) zero_mask++;
+            } }
+        double m = errs.size(), mean = sum / m, sd = sqrt(sq / m - mean * mean);
+        if (fabs(mean) > 8 * alpha / sqrt(m) + 1e-9) FAIL("key-switching key n=%d t=%d basebit=%d: row errors are not centred (mean %g)", n, t, bb, mean);
+        if (m >= 200 && (sd < alpha * (1 - 8 / sqrt(2 * m)) || sd > alpha * (1 + 8 / sqrt(2 * m)))) FAIL("key-switching key n=%d t=%d basebit=%d: row errors have standard deviation %g, requested %g", n, t, bb, sd, alpha);
+        if (zero_mask > 2) FAIL("key-switching key n=%d t=%d basebit=%d: %ld rows have an all-zero mask", n, t, bb, zero_mask);
+        vector<int32_t> srt(errs); std::sort(srt.begin(), srt.end()); long eq = 0; for (size_t q = 1; q < srt.size(); q++) if (srt[q] == srt[q - 1]) eq++;
+        double expect = m * m / 2 / (3.5 * alpha * 4294967296.0);
+        if (eq > 10 * expect + 50) FAIL("key-switching key n=%d t=%d basebit=%d: %ld pairs of rows carry the same noise value (about %.0f expected for independent draws)", n, t, bb, eq, expect);
+        delete_LweKeySwitchKey(ks); delete_LweKey(ik); delete_LweKey(ok); delete_LweParams(ip); delete_LweParams(op);
+    }
+    return 0;
+}
 int main(int argc, char **argv) {
     if (argc < 2) return 2;
     string f = argv[1];
@@ -227,6 +259,7 @@ int main(int argc, char **argv) {
     if (f.find("Extract") != string::npos) return extract(f);
     if (f == "decomp" && argc >= 4) return decomp(atoi(argv[2]), atoi(argv[3]));
     if (f == "pairing") return phase_pairing();
+    if (f == "kscreate") return kscreate();
     if (f == "tGswAddMuH" || f == "tGswAddMuIntH" || f == "tGswAddH") return gadget(f);
     if (f == "keyswitch" && argc >= 5) return keyswitch(atoi(argv[2]), atoi(argv[3]), atoi(argv[4]));
     if (f == "naive" || f.find("Karatsuba") != string::npos) return mult(f);
